@@ -259,9 +259,10 @@ func (r *result) confirmations(chain string) {
 	bMut.BatchTimeout++
 	cMut := *call
 	cMut.Memo = "ff"
-	otherChain := "eth"
-	if chain == "eth" {
-		otherChain = "tron"
+	// a chain whose signatures are made out differently (tron signs with its own prefix, all other modules with eth's)
+	otherChain := "tron"
+	if chain == "tron" {
+		otherChain = "eth"
 	}
 	objs := []object{
 		{"oracle-set", scen.OracleSetCheckpoint(chain, gid, oset), map[string][]byte{"mutated-object": scen.OracleSetCheckpoint(chain, gid, &osMut), "other-gravity-id": scen.OracleSetCheckpoint(chain, "other", oset)},
